@@ -24,6 +24,15 @@ CHECKS = {
  "C16": ("model-based stateful PBT (proptest): gate matrix over entry points x party roles, cap boundary amounts, upgrade/migrate flag histories",
          "Generated histories interleaving allow/disallow, block/unblock, pause/unpause with every token entry point (transfer, transfer_from, approve, burn, burn_from, mint) under explicit authorization on two harness list tokens and the allowlist/blocklist/pausable/capped/pausable-counter examples: a call that succeeds never has a closed documented gate, a refused call changes nothing, list changes are immediate and idempotent, pause/unpause strictly alternate and need the owner, with all gates open and preconditions met the call works; cap: no successful mint lifts the supply above generated caps (boundary amounts cap-supply+-1, overflow); migration: on the derive-generated upgrade/migrate of the current tree (native code re-installed after upgrade) migrate completes exactly once per upgrade, never without one, only for the owner.",
          "DESIGN.md §4 C16"),
+ "C05": ("model-based stateful PBT (proptest) with exact BigInt rational oracle and cross-multiplied rate monotonicity",
+         "Generated deposit/mint/withdraw/redeem/donation/approval/share-transfer histories on the example vault for every decimals offset 0..=10 over a library asset token, with operator == or != holder and explicit authorization trees (nested asset pull); every conversion and preview equals the exact rational formula rounded in the stated direction (BigInt) or fails iff it does not fit, a preview equals what the operation then moves, the operation moves exactly (assets, shares) between exactly the named parties with matching event, and (A'+1)(S+V) >= (A+1)(S'+V) after every successful operation; max_withdraw/max_redeem accepted and +1 rejected; two-leg round trips never profit.",
+         "DESIGN.md §4 C05"),
+ "C14": ("model-based stateful PBT (proptest): threshold/weight lattices, spending-window histories with BigInt window sums, can_enforce vs enforce differential",
+         "Simple-threshold and spending-limit example policies and a harness weighted-threshold policy driven with generated rules, thresholds, weight maps (sums past u32::MAX), authenticated subsets and spending histories (limit changes, ledger advances to window edges, malformed and non-transfer contexts, 998..1000-entry histories): can_enforce equals the threshold/weight predicate, zero/unreachable thresholds are refused, can_enforce agrees with whether enforce succeeds in the same state, every state-changing call without the account's exact authorization entry fails without trace, and the authorized amounts inside any window never exceed the limit in force (BigInt).",
+         "DESIGN.md §4 C14"),
+ "C20": ("model-based stateful PBT (proptest): eight registries against plain set/map reference models, capacity scenarios at limit-1/limit/limit+1",
+         "Generated add/remove/update/batch histories with state-relative selectors (existing first/last/middle/just-moved, absent, removed-before) over the library's registries, every getter evaluated after every step against a plain set/map model (sets as sets, index ranges as bijections, never order): duplicates and absent removals are refused without effect, documented capacity limits hold exactly at the limit, ids are never reused, a recovered account is never registered again.",
+         "DESIGN.md §4 C20"),
  "C17": ("PBT (proptest) with an independent sha2/sha3 tree builder, single-corruption metamorphic probes, exhaustive small trees, model-based claim histories",
          "Independent Merkle tree builder (sorted-pair with promoted odd nodes and OZ-JS heap layout; positional padded with distinct fillers) for SHA-256 and Keccak-256: every leaf's honest proof must verify, every single-element corruption of leaf/proof/index/root must be rejected; exhaustive drop/swap/index/high-bit enumeration for trees up to 17 (thorough 40) leaves; generated claim histories over two trees on harness distributors (both verification forms) and the airdrop and merkle-voting examples: claimed flips only with a valid proof against the current root, stays set forever, failed claims flip nothing, airdrop pays exactly once.",
          "DESIGN.md §4 C17"),
